@@ -509,6 +509,8 @@ fn item(i: &Item) -> Value {
             m.insert("attrs".into(), attrs(&im.attrs));
             m.insert("self_ty".into(), json!(ts(&im.self_ty)));
             m.insert("generics".into(), json!(ts(&im.generics)));
+            m.insert("where".into(), json!(im.generics.where_clause.as_ref().map(ts)));
+            m.insert("unsafe".into(), json!(im.unsafety.is_some()));
             if let Some((_, p, _)) = &im.trait_ {
                 m.insert("trait".into(), json!(ts(p)));
             }
@@ -521,6 +523,7 @@ fn item(i: &Item) -> Value {
                         fm.insert("vis".into(), json!(vis(&f.vis)));
                         fm.insert("name".into(), json!(f.sig.ident.to_string()));
                         fm.insert("sig".into(), sig(&f.sig));
+                        fm.insert("sig_src".into(), json!(ts(&f.sig)));
                         fm.insert("body".into(), block(&f.block));
                         items.push(Value::Object(fm));
                     }
@@ -648,7 +651,47 @@ fn item(i: &Item) -> Value {
     Value::Object(m)
 }
 
+fn parse_snippets() {
+    // stdin: JSON array of {"as": "file"|"expr"|"pat"|"type"|"stmts", "src": "..."}; stdout: JSON array of results
+    let mut inp = String::new();
+    std::io::Read::read_to_string(&mut std::io::stdin(), &mut inp).unwrap();
+    let reqs: Vec<Value> = serde_json::from_str(&inp).unwrap();
+    let mut out = vec![];
+    for r in reqs {
+        let src = r["src"].as_str().unwrap_or("");
+        let res = match r["as"].as_str().unwrap_or("file") {
+            "file" => match syn::parse_str::<File>(src) {
+                Ok(f) => json!({"ok": true, "items": f.items.iter().map(item).collect::<Vec<_>>()}),
+                Err(e) => json!({"ok": false, "error": e.to_string()}),
+            },
+            "expr" => match syn::parse_str::<Expr>(src) {
+                Ok(e) => json!({"ok": true, "expr": expr(&e)}),
+                Err(e) => json!({"ok": false, "error": e.to_string()}),
+            },
+            "stmts" => match Block::parse_within.parse_str(src) {
+                Ok(b) => json!({"ok": true, "stmts": b.iter().map(stmt).collect::<Vec<_>>()}),
+                Err(e) => json!({"ok": false, "error": e.to_string()}),
+            },
+            "pat" => match Pat::parse_multi_with_leading_vert.parse_str(src) {
+                Ok(p) => json!({"ok": true, "pat": pat(&p)}),
+                Err(e) => json!({"ok": false, "error": e.to_string()}),
+            },
+            "type" => match syn::parse_str::<Type>(src) {
+                Ok(t) => json!({"ok": true, "type": ts(&t)}),
+                Err(e) => json!({"ok": false, "error": e.to_string()}),
+            },
+            other => json!({"ok": false, "error": format!("unknown kind {other}")}),
+        };
+        out.push(res);
+    }
+    println!("{}", serde_json::to_string(&Value::Array(out)).unwrap());
+}
+
 fn main() {
+    if std::env::args().nth(1).as_deref() == Some("--parse") {
+        parse_snippets();
+        return;
+    }
     let mut out = Map::new();
     for path in std::env::args().skip(1) {
         let src = match std::fs::read_to_string(&path) {
